@@ -184,7 +184,9 @@ class Call:
 
 
 class Exec:
-    def __init__(self, prog, summaries, enums, max_unroll=8, max_paths=20000, timeout_s=600):
+    def __init__(self, prog, summaries, enums, max_unroll=8, max_paths=20000, timeout_s=None):
+        if timeout_s is None:
+            timeout_s = max(600, int(os.environ.get("VERIF_MIR_EXPLORE_S", "600")))
         self.prog = prog
         self.summaries = summaries
         self.enums = enums  # enum short name -> list of (variants list)
